@@ -495,3 +495,79 @@ Definition ops_safegcd_spec : list (string * opfn) := [
   ("boxedmonty.inv", fun _ a => okdom (same_len a && odd1 a && (1 <? ev 1 a)) (sp_inv a (ev 0 a)));
   ("boxedmonty.inv_vartime", fun _ a => okdom (same_len a && odd1 a && (1 <? ev 1 a)) (sp_inv a (ev 0 a)))
 ].
+
+(* ---- convergence report ----
+   For every op above, "conv:<op>" reports whether the Bernstein-Yang iteration that the op runs reached g = 0 within
+   `iterations(f_bits, g_bits)` jumps on these arguments (the flag of the fixed-count loop; the run-until-zero loop then
+   stops within the same count).  The documented behaviour is: always.  ./check evaluates it for every generated case of a
+   safegcd op, and the table theorem of Props/C10.v takes exactly this flag as its hypothesis. *)
+Definition cv (b : bool) : outcome := Val [vbool b].
+Definition conv_inv (boxed : bool) (m g : list Z) : bool := sg_converged boxed m g (unsat_nlimbs (length m)).
+Definition odd_part (m : list Z) : list Z :=
+  let n := length m in to_limbs n (vshr n (eval m) (vtz n (eval m))).
+Definition conv_gcd_vt (boxed : bool) (a b : list Z) : bool :=
+  if Z.odd (eval a) then sg_converged boxed a b (unsat_nlimbs (length a)) else uint_gcd_converged boxed a b.
+Definition monty_arg (a m : list Z) : list Z := to_limbs (length m) ((eval a * Bn (length m)) mod eval m).
+
+Definition ops_safegcdconv_model : list (string * opfn) := [
+  ("conv:uint.inv_odd_mod", fun _ a => cv (conv_inv false (arg 1 a) (arg 0 a)));
+  ("conv:uint.inv_odd_mod_vartime", fun _ a => cv (conv_inv false (arg 1 a) (arg 0 a)));
+  ("conv:uint.inv_adj", fun _ a => cv (conv_inv false (arg 1 a) (arg 0 a)));
+  ("conv:uint.inv_adj_vartime", fun _ a => cv (conv_inv false (arg 1 a) (arg 0 a)));
+  ("conv:uint.inv_mod", fun _ a => cv (conv_inv false (odd_part (arg 1 a)) (arg 0 a)));
+  ("conv:uint.inv_odd_is_some", fun _ a => cv (conv_inv false (arg 1 a) (arg 0 a)));
+  ("conv:uint.inv_is_some", fun _ a => cv (conv_inv false (odd_part (arg 1 a)) (arg 0 a)));
+  ("conv:boxed.inv_odd_is_some", fun _ a => cv (conv_inv true (arg 1 a) (arg 0 a)));
+  ("conv:boxed.inv_is_some", fun _ a => cv (conv_inv true (odd_part (arg 1 a)) (arg 0 a)));
+  ("conv:int.inv_odd_is_some", fun _ a => cv (conv_inv false (arg 1 a) (int_abs (arg 0 a))));
+  ("conv:int.inv_is_some", fun _ a => cv (conv_inv false (odd_part (arg 1 a)) (int_abs (arg 0 a))));
+  ("conv:uint.inv_mod2k", fun _ a => cv true);
+  ("conv:uint.inv_mod2k_vartime", fun _ a => cv true);
+  ("conv:uint.inv_mod2k_full64", fun _ a => cv true);
+  ("conv:uint.gcd", fun _ a => cv (uint_gcd_converged false (arg 0 a) (arg 1 a)));
+  ("conv:uint.gcd_vartime", fun _ a => cv (conv_gcd_vt false (arg 0 a) (arg 1 a)));
+  ("conv:odd.gcd_vartime", fun _ a => cv (sg_converged false (arg 0 a) (arg 1 a) (unsat_nlimbs (ln 0 a))));
+  ("conv:uint.safegcd_converged", fun _ a => cv (sg_converged false (arg 0 a) (arg 1 a) (unsat_nlimbs (ln 0 a))));
+  ("conv:uint.gcd_converged", fun _ a => cv (uint_gcd_converged false (arg 0 a) (arg 1 a)));
+  ("conv:boxed.gcd_converged", fun _ a => cv (uint_gcd_converged true (arg 0 a) (arg 1 a)));
+  ("conv:int.inv_odd_mod", fun _ a => cv (conv_inv false (arg 1 a) (int_abs (arg 0 a))));
+  ("conv:int.inv_mod", fun _ a => cv (conv_inv false (odd_part (arg 1 a)) (int_abs (arg 0 a))));
+  ("conv:int.gcd", fun _ a => cv (uint_gcd_converged false (int_abs (arg 0 a)) (int_abs (arg 1 a))));
+  ("conv:int.gcd_vartime", fun _ a => cv (conv_gcd_vt false (int_abs (arg 0 a)) (int_abs (arg 1 a))));
+  ("conv:int.gcd_uint", fun _ a => cv (uint_gcd_converged false (int_abs (arg 0 a)) (arg 1 a)));
+  ("conv:int.gcd_uint_vartime", fun _ a => cv (conv_gcd_vt false (int_abs (arg 0 a)) (arg 1 a)));
+  ("conv:uint.gcd_int", fun _ a => cv (uint_gcd_converged false (arg 0 a) (int_abs (arg 1 a))));
+  ("conv:uint.gcd_int_vartime", fun _ a => cv (conv_gcd_vt false (arg 0 a) (int_abs (arg 1 a))));
+  ("conv:boxed.inv_odd_mod", fun _ a => cv (conv_inv true (arg 1 a) (arg 0 a)));
+  ("conv:boxed.inv_odd_mod_vartime", fun _ a => cv (conv_inv true (arg 1 a) (arg 0 a)));
+  ("conv:boxed.inv_mod", fun _ a => cv (conv_inv true (odd_part (arg 1 a)) (arg 0 a)));
+  ("conv:boxed.inv_mod2k", fun _ a => cv true);
+  ("conv:boxed.inv_mod2k_vartime", fun _ a => cv true);
+  ("conv:boxed.inv_mod2k_full64", fun _ a => cv true);
+  ("conv:boxed.gcd", fun _ a => cv (uint_gcd_converged true (arg 0 a) (arg 1 a)));
+  ("conv:boxed.gcd_vartime", fun _ a => cv (conv_gcd_vt true (arg 0 a) (arg 1 a)));
+  ("conv:boxed_odd.gcd", fun _ a => cv (sg_converged true (arg 0 a) (arg 1 a) (unsat_nlimbs (ln 0 a))));
+  ("conv:boxed_odd.gcd_vartime", fun _ a => cv (sg_converged true (arg 0 a) (arg 1 a) (unsat_nlimbs (ln 0 a))));
+  ("conv:boxed.safegcd_converged", fun _ a => cv (sg_converged true (arg 0 a) (arg 1 a) (unsat_nlimbs (ln 0 a))));
+  ("conv:monty.inv", fun _ a => cv (conv_inv false (arg 1 a) (monty_arg (arg 0 a) (arg 1 a))));
+  ("conv:monty.inv_vartime", fun _ a => cv (conv_inv false (arg 1 a) (monty_arg (arg 0 a) (arg 1 a))));
+  ("conv:boxedmonty.inv", fun _ a => cv (conv_inv true (arg 1 a) (monty_arg (arg 0 a) (arg 1 a))));
+  ("conv:boxedmonty.inv_vartime", fun _ a => cv (conv_inv true (arg 1 a) (monty_arg (arg 0 a) (arg 1 a))))
+].
+(* documented: the iteration always converges wherever the op itself is specified *)
+Definition conv_spec (k : string) : opfn := fun dbg a =>
+  match lookup k ops_safegcd_spec with
+  | Some f => match f dbg a with Unsupported => Unsupported | _ => Val [[1]] end
+  | None => Unsupported
+  end.
+Definition ops_safegcdconv_spec : list (string * opfn) :=
+  map (fun kv => (String.append "conv:" (fst kv), conv_spec (fst kv))) ops_safegcd_spec.
+
+(* ---- F4: the ORIGINAL Uint::inv_mod (before tools/fix_C10_1.diff) ----
+   `s.inv_mod2k(k).expect("inverse mod 2^k exists")`: a panic whenever the odd part s has no inverse modulo 2^k, which
+   happens exactly for modulus = 0 (s = 0, k = BITS).  BoxedUint::inv_mod never had the expect. *)
+Definition uint_inv_mod_original (dbg boxed : bool) (a m : list Z) : sgres :=
+  let n := length m in
+  let k := vtz n (eval m) in
+  let s := vshr n (eval m) k in
+  if negb boxed && negb (snd (inv_mod2k_ct n s k)) then SgPanic else uint_inv_mod dbg boxed a m.
